@@ -386,10 +386,12 @@ Section Composition.
     - destruct (IH rds ltac:(lia)) as [tot Ht]. exists (r + tot)%Z. simpl. rewrite Ht. reflexivity.
   Qed.
 
-  Lemma real_apply_is_apply_all : forall ls s, real_apply ls s = apply_all a ls s.
+  (* when every line is accepted (a rejected ARRAY line leaves its first elements applied:
+     SaveModel.partial_line; the pipeline's abstract dispatch stage has no such notion) *)
+  Lemma real_apply_is_apply_all : forall ls s fin, apply_all a ls s = (fin, true) -> real_apply ls s = (fin, true).
   Proof.
-    induction ls as [|l ls IH]; intros s; simpl; [reflexivity|].
-    rewrite C04_dispatch_exact. destruct (apply_line a l s); [apply IH | reflexivity].
+    induction ls as [|l ls IH]; intros s fin H; simpl in *; [exact H|].
+    rewrite C04_dispatch_exact. destruct (apply_line a l s); [apply IH; exact H | discriminate].
   Qed.
 
   Lemma respects_map : forall (X Y : Type) (R : Y -> Y -> Prop) (f : X -> Y) l,
@@ -431,7 +433,7 @@ Section Composition.
     destruct (roundtrip_flat a st no_pointer_subtrees no_leaf_arrays distinct_addresses sel_plain
                 sel_same_guards state_length state_scalar defaults_scalar state_stable ord
                 (Permutation_sym Hpo) Hrb) as (fin & Hfin & Hcount & Hrest).
-    rewrite real_apply_is_apply_all, Hfin. exists fin. split; [reflexivity | assumption].
+    rewrite (real_apply_is_apply_all _ _ fin Hfin). exists fin. split; [reflexivity | assumption].
   Qed.
 End Composition.
 
